@@ -705,12 +705,46 @@ fn corpus(dir: &std::path::Path) -> Vec<Case> {
     }
     v
 }
+fn coq_path(p: &std::path::Path) -> String {
+    use std::os::unix::ffi::OsStrExt;
+    ws_common::coq_bytes(p.as_os_str().as_bytes())
+}
+fn coq_lines(ls: &[String]) -> String {
+    coq_list(ls, |l| ws_common::coq_bytes(l.as_bytes()))
+}
+/// what Patch::parse returned, as a term of `option (list op)`
+fn coq_ops(patch: &str) -> String {
+    match Patch::parse(patch) {
+        Err(_) => "None".into(),
+        Ok(p) => {
+            let ops: Vec<String> = p
+                .ops()
+                .iter()
+                .map(|op| match op {
+                    PatchOp::AddFile { path, content } => format!("Add {} {}", coq_path(path), ws_common::coq_bytes(content.as_bytes())),
+                    PatchOp::DeleteFile { path } => format!("Del {}", coq_path(path)),
+                    PatchOp::UpdateFile { path, moved_to, hunks } => format!(
+                        "Upd {} {} [{}]",
+                        coq_path(path),
+                        match moved_to {
+                            Some(m) => format!("(Some {})", coq_path(m)),
+                            None => "None".into(),
+                        },
+                        hunks.iter().map(|h| format!("{{| h_before := {}; h_after := {} |}}", coq_lines(&h.before), coq_lines(&h.after))).collect::<Vec<_>>().join("; ")
+                    ),
+                })
+                .collect();
+            format!("(Some [{}])", ops.join("; "))
+        }
+    }
+}
 fn coq_case(c: &Case, o: &Obs, fixed: bool) -> String {
     format!(
-        "{{| c_fixed := {}; c_fs := {}; c_patch := {}; c_code := {}; c_changed := {}; c_after := {} |}}",
+        "{{| c_fixed := {}; c_fs := {}; c_patch := {}; c_ops := {}; c_code := {}; c_changed := {}; c_after := {} |}}",
         coq_bool(fixed),
         coq_fs(&o.before),
         ws_common::coq_bytes(c.patch.as_bytes()),
+        coq_ops(&c.patch),
         o.code,
         coq_list(&o.changed, |s| ws_common::coq_bytes(s.as_bytes())),
         coq_fs(&o.after)
@@ -723,7 +757,7 @@ fn main() {
     let verif_root = a.extra.get("verif").cloned().unwrap_or_else(|| env!("CARGO_MANIFEST_DIR").to_string() + "/..");
     let mut res = RunResult::new("C12", &a);
     res.rule = "cases = (workspace tree, patch text): patches derived from the simulated workspace so that hunks apply (add/update/move/delete, 1-5 ops, same path re-used, file replaced by a directory), a deep-rollback family (3-7 applying operations followed by one that cannot), then one text-level mutation in half of them (16 kinds), path spellings (./, //, /./, trailing / and /., unicode blanks, NUL), CRLF/LF/mixed/no-final-newline/empty/non-UTF-8 files, plus a malformed stream; non-trivial = at least one op parsed and the workspace non-empty".into();
-    let n = if a.thorough() { 20000 } else { 900 };
+    let n = if a.thorough() { 12000 } else { 900 };
     let rt = tokio::runtime::Builder::new_current_thread().enable_all().build().unwrap();
     let mut r = Rng::new(a.seed);
     let mut w = CaseWriter::new(&a.out, "Model.Patch", "check_case", "model_obs", 60);
